@@ -312,6 +312,22 @@ def run_bursts(ctx):
                 cid += 1
                 cases.append({"id": cid, "threshold": th, "recover_ns": HOUR, "mock": (cid % 3 == 0), "burst": n, "burst_out": out,
                               "rounds": rounds if want == "rejected" else max(20, rounds // 6), "want": want})
+    # after a burst that overshoots the threshold (count > threshold + 1) the recovery time passes; the trial call of the
+    # half-open state fails: the count restarts from threshold/2, so with threshold >= 1 the breaker is closed again and the
+    # next call is forwarded (threshold 0: one failure opens it again)
+    for n, th in ((4, 1), (5, 2), (6, 3), (8, 2), (3, 0), (6, 4)):
+        if n < th + 2:
+            continue
+        cid += 1
+        cases.append({"id": cid, "threshold": th, "recover_ns": 60 * 10**6, "mock": (cid % 2 == 0), "burst": n, "burst_out": "E",
+                      "rounds": 12 if quick else 60, "after_sleep_ms": 90, "after_fail": True,
+                      "want": "forwarded" if (th >> 1) + 1 <= th else "rejected"})
+    # a call that passed the breaker's invoke stage while it was closed and reaches its IO stage after the burst has opened it
+    # is a rejected call like any other: the mock service's answer when one is configured, ErrBreaker otherwise
+    for n, th, mock in ((3, 2, True), (4, 2, True), (3, 1, False), (5, 3, True)):
+        cid += 1
+        cases.append({"id": cid, "threshold": th, "recover_ns": HOUR, "mock": mock, "burst": n, "burst_out": "E",
+                      "rounds": 10 if quick else 60, "held": True, "want": "rejected"})
     rc, obs, err = hv.run_harness("c20", [{k: v for k, v in c.items() if k != "want"} for c in cases], timeout=1200)
     byid = {o["id"]: o for o in obs}
     total = 0
@@ -323,12 +339,20 @@ def run_bursts(ctx):
         f, r, x = o.get("burst_forwarded", 0), o.get("burst_rejected", 0), o.get("burst_other", 0)
         total += f + r
         ctx.count_case("burst|%d|%s|%d" % (c["burst"], c["burst_out"], c["threshold"]), nontrivial=r > 0)
+        if c.get("held") and o.get("held_bad"):
+            ctx.report("breaker-held-call-not-answered-like-a-rejected-call",
+                       "a call that passed the invoke stage while the breaker was closed and reached the IO stage after %d failures had "
+                       "opened it (threshold %d, mock service %s) got %r in %d rounds; a rejected call gets %s"
+                       % (c["burst"], c["threshold"], c["mock"], o.get("held_example"), o["held_bad"],
+                          "the mock service's answer" if c["mock"] else "ErrBreaker"),
+                       {"case": c, "observed": o, "failing_input": True})
         bad = f if c["want"] == "rejected" else r
         if bad:
             ctx.report("breaker-burst:%s-although-should-be-%s" % ("forwarded" if c["want"] == "rejected" else "rejected", c["want"]),
-                       "%d callers failing at the same instant (outcome %s), threshold %d: in %d of %d rounds the next call was %s; "
+                       "%d callers failing at the same instant (outcome %s), threshold %d%s: in %d of %d rounds the next call was %s; "
                        "the property requires it to be %s (every failure of a forwarded call counts)"
-                       % (c["burst"], c["burst_out"], c["threshold"], bad, f + r, "forwarded" if c["want"] == "rejected" else "rejected", c["want"]),
+                       % (c["burst"], c["burst_out"], c["threshold"],
+                          ", then the recovery time passes and the trial call fails" if c.get("after_fail") else "", bad, f + r, "forwarded" if c["want"] == "rejected" else "rejected", c["want"]),
                        {"case": c, "observed": o, "failing_input": True})
     ctx.note("burst_rounds", total)
 
